@@ -26,6 +26,7 @@ import (
 	"testing"
 	"time"
 
+	"github.com/btcsuite/btcd/chainhash/v2"
 	"github.com/lightningnetwork/lnd/amp"
 	"github.com/lightningnetwork/lnd/channeldb"
 	"github.com/lightningnetwork/lnd/clock"
@@ -72,6 +73,11 @@ type c15op struct {
 	index uint32
 
 	ks []byte
+
+	// blinded-path payload: path id and total_amt_msat
+	path    bool
+	pathID  [32]byte
+	pathTot uint64
 
 	pre lntypes.Preimage
 	dt  int
@@ -277,6 +283,9 @@ func (c *c15) features(feat string) *lnwire.FeatureVector {
 			raw.Set(lnwire.MPPOptional)
 		case 'a':
 			raw.Set(lnwire.AMPRequired)
+		case 'b':
+			raw.Set(lnwire.RouteBlindingOptional)
+			raw.Set(lnwire.Bolt11BlindedPathsRequired)
 		}
 	}
 	return lnwire.NewFeatureVector(raw, lnwire.Features)
@@ -307,6 +316,9 @@ func c15featStr(fv *lnwire.FeatureVector) string {
 	}
 	if fv.IsSet(lnwire.AMPOptional) {
 		s += "o"
+	}
+	if fv.IsSet(lnwire.Bolt11BlindedPathsRequired) {
+		s += "b"
 	}
 	if s == "" {
 		s = "-"
@@ -493,6 +505,13 @@ func (c *c15) doNotify(o *c15op) {
 			ks = "-"
 		}
 	}
+	path := "none"
+	if o.path {
+		id := chainhash.Hash(o.pathID)
+		pl.pathID = &id
+		pl.totalAmtMsat = lnwire.MilliSatoshi(o.pathTot)
+		path = c15hx(o.pathID[:])
+	}
 	res := ""
 	func() {
 		defer func() {
@@ -515,8 +534,8 @@ func (c *c15) doNotify(o *c15op) {
 		}
 	}()
 	c.addHash(o.hash)
-	c.pf("notify h=%s k=%d amt=%d exp=%d ht=%d mpp=%s amp=%s ks=%s => %s",
-		c15hx(o.hash[:]), o.key, o.amt, o.exp, o.ht, mpp, ampS, ks, res)
+	c.pf("notify h=%s k=%d amt=%d exp=%d ht=%d mpp=%s amp=%s ks=%s path=%s tot=%d => %s",
+		c15hx(o.hash[:]), o.key, o.amt, o.exp, o.ht, mpp, ampS, ks, path, o.pathTot, res)
 	c.observe()
 }
 
@@ -669,6 +688,12 @@ func (c *c15) newInv(idx int, kind string) *c15inv {
 			// the stored preimage does not belong to the payment hash
 			iv.bogus = true
 			iv.storedPre = lntypes.Preimage(c.rbytes())
+		}
+	case "blinded":
+		iv.feat = []string{"tPb", "tPmb", "tPb", "tpb"}[c.pick(4)]
+		if c.chance(25) {
+			iv.hodl = true
+			iv.stored = false
 		}
 	case "legacy":
 		iv.feat = ""
@@ -866,6 +891,94 @@ func (c *c15) genMppSet(iv *c15inv) []*c15op {
 	return ops
 }
 
+// genBlinded: htlcs arriving over a blinded path: the payment address travels
+// as path id, the set total as total_amt_msat; no MPP record (mostly).
+func (c *c15) genBlinded(iv *c15inv) []*c15op {
+	v := iv.val
+	total := v
+	switch c.pick(10) {
+	case 0:
+		total = v + 1
+	case 1:
+		if v > 0 {
+			total = v - 1
+		}
+	case 2:
+		total = 0
+	}
+	if v == 0 && total == 0 && c.chance(80) {
+		total = 1000
+	}
+	n := 1 + c.pick(3)
+	if c.chance(50) {
+		n = 1
+	}
+	sum := total
+	switch c.pick(10) {
+	case 0:
+		if sum > 0 {
+			sum--
+		}
+	case 1:
+		sum++
+	}
+	parts := c.split(sum, n)
+	bad := -1
+	badKind := 0
+	if c.chance(45) {
+		bad = n - 1
+		if c.chance(30) {
+			bad = c.pick(n)
+		}
+		badKind = c.pick(6)
+	}
+	var ops []*c15op
+	for i := 0; i < n; i++ {
+		h := c.nextHeight()
+		o := &c15op{kind: "notify", hash: iv.hash, key: c.newKey(iv), amt: parts[i], ht: h,
+			path: true, pathID: iv.addr, pathTot: total}
+		o.exp = c.expiry(h, iv.cltv, 88)
+		if i == bad {
+			switch badKind {
+			case 0, 1:
+				// a path id that is no invoice's payment address
+				o.pathID = c.rbytes()
+			case 2:
+				o.pathID = [32]byte{}
+			case 3:
+				// path id absent: plain legacy htlc
+				o.path = false
+				o.pathTot = 0
+			case 4:
+				// MPP record next to the path id, one of them wrong
+				o.mpp = true
+				o.mppTotal = total
+				o.mppAddr = iv.addr
+				if c.chance(50) {
+					o.mppAddr = c.rbytes()
+				} else {
+					o.pathID = c.rbytes()
+				}
+			case 5:
+				o.pathTot = total + 1
+			}
+		} else if c.chance(10) {
+			o.mpp = true
+			o.mppTotal = total
+			o.mppAddr = iv.addr
+		}
+		ops = append(ops, o)
+	}
+	if bad >= 0 && c.chance(50) {
+		h := c.nextHeight()
+		o := &c15op{kind: "notify", hash: iv.hash, key: c.newKey(iv), amt: parts[bad], ht: h,
+			path: true, pathID: iv.addr, pathTot: total}
+		o.exp = c.expiry(h, iv.cltv, 90)
+		ops = append(ops, o)
+	}
+	return ops
+}
+
 func (c *c15) genLegacy(iv *c15inv) []*c15op {
 	v := iv.val
 	amts := []uint64{v, v, v + 1, 2 * v}
@@ -1013,7 +1126,7 @@ func (c *c15) genCase(tier string) {
 	c.h0 = h0s[c.pick(len(h0s))]
 	c.height = c.h0
 
-	kinds := []string{"regular", "regular", "regular", "hold", "hold", "legacy", "zero", "amp"}
+	kinds := []string{"regular", "regular", "regular", "hold", "hold", "legacy", "zero", "amp", "blinded", "blinded"}
 	ninv := 1
 	if c.chance(35) {
 		ninv = 2
@@ -1035,6 +1148,16 @@ func (c *c15) genCase(tier string) {
 		for g := 0; g < ng; g++ {
 			x := c.pick(100)
 			switch {
+			case kind == "blinded":
+				if x < 75 {
+					s = append(s, c.genBlinded(iv)...)
+				} else if x < 88 {
+					s = append(s, c.genMppSet(iv)...)
+				} else if x < 95 {
+					s = append(s, c.genLegacy(iv)...)
+				} else {
+					s = append(s, &c15op{kind: "cancel", hash: iv.hash})
+				}
 			case kind == "amp":
 				if x < 85 {
 					s = append(s, c.genAmpSet(iv)...)
@@ -1054,8 +1177,10 @@ func (c *c15) genCase(tier string) {
 					s = append(s, &c15op{kind: "cancel", hash: iv.hash})
 				}
 			default:
-				if x < 62 {
+				if x < 56 {
 					s = append(s, c.genMppSet(iv)...)
+				} else if x < 62 {
+					s = append(s, c.genBlinded(iv)...)
 				} else if x < 85 {
 					s = append(s, c.genLegacy(iv)...)
 				} else if x < 90 {
